@@ -204,6 +204,15 @@ class Impl:
                 self.state.add_circuit_listener(self.listener(op[1]))
             elif k == 'asl':
                 self.state.add_stream_listener(self.listener(op[1]))
+            elif k == 'aclw':
+                # the same listener, registered through the six on_circuit_* convenience methods (one callback each)
+                l = self.listener(op[1])
+                for name in ('new', 'launched', 'extend', 'built', 'closed', 'failed'):
+                    getattr(self.state, 'on_circuit_' + name)(getattr(l, 'circuit_' + name))
+            elif k == 'aslw':
+                l = self.listener(op[1])
+                for name in ('new', 'succeeded', 'attach', 'detach', 'closed', 'failed'):
+                    getattr(self.state, 'on_stream_' + name)(getattr(l, 'stream_' + name))
             elif k == 'lc':
                 self.cobjs[op[1]].listen(self.listener(op[2]))
             elif k == 'uc':
@@ -292,15 +301,30 @@ class Impl:
 
     def dump(self):
         lids = {id(v): k for k, v in self.listeners.items()}
+
+        def lid_list(listeners):
+            # a listener registered through the on_circuit_* / on_stream_* methods is six one-callback objects: named once
+            out = []
+            for x in listeners:
+                lid = lids.get(id(x))
+                if lid is None:
+                    for v in vars(x).values():
+                        owner = getattr(v, '__self__', None)
+                        if owner is not None and id(owner) in lids:
+                            lid = lids[id(owner)]
+                            break
+                if lid is not None and lid not in out:
+                    out.append(lid)
+            return out
         cs = []
         for i, c in enumerate(self.cobjs):
             cs.append([i, c.id, c.state, c.purpose, [r.id_hex for r in c.path], list(c.build_flags), [self.soid(s) for s in c.streams],
-                       [lids[id(x)] for x in c.listeners if id(x) in lids], sorted(c.flags.items())])
+                       lid_list(c.listeners), sorted(c.flags.items())])
         ss = []
         for i, s in enumerate(self.sobjs):
             ss.append([i, s.id, s.state, s.target_host, s.target_port, None if s.target_addr is None else str(s.target_addr),
                        None if s.source_addr is None else str(s.source_addr), s.source_port,
-                       None if s.circuit is None else self.coid(s.circuit), [lids[id(x)] for x in s.listeners if id(x) in lids],
+                       None if s.circuit is None else self.coid(s.circuit), lid_list(s.listeners),
                        sorted(s.flags.items())])
         return {'cobj': cs, 'sobj': ss, 'circuits': sorted((k, self.coid(v)) for k, v in self.state.circuits.items()),
                 'streams': sorted((k, self.soid(v)) for k, v in self.state.streams.items()),
@@ -440,6 +464,8 @@ def op_line(op):
         if ans.startswith('z'):
             ans = 'x'
         return 'strm %s %s %s' % (q(op[2]), ans, ' '.join(hexs(a) for a in op[1].split()))
+    if k in ('aclw', 'aslw'):
+        return '%s %d' % (k[:3], op[1])
     if k in ('acl', 'asl', 'wb', 'wc', 'cc', 'cs'):
         return '%s %d' % (k, op[1])
     if k in ('ccr', 'csr', 'wbr', 'wcr'):
